@@ -5,7 +5,8 @@ import json, os, shutil, subprocess, sys, tempfile
 
 ROOT = os.path.dirname(os.path.dirname(os.path.abspath(__file__)))
 CASES = {"H1": "C01", "H2": "C04", "H3": "C04", "H4": "C17", "H5": "C20",
-         "H6": "C05", "H7": "C12", "H8": "C17", "H9": "C19", "H10": "C10"}
+         "H6": "C05", "H7": "C12", "H8": "C17", "H9": "C19", "H10": "C10",
+         "H11": "C05", "H12": "C15", "H13": "C08", "H14": "C09", "H15": "C17"}
 
 
 def sh(cmd, **kw):
@@ -14,7 +15,10 @@ def sh(cmd, **kw):
 
 def main():
     bad = 0
+    only = set(sys.argv[1:])
     for h, prop in sorted(CASES.items(), key=lambda kv: int(kv[0][1:])):
+        if only and h not in only:
+            continue
         wt = tempfile.mkdtemp(prefix="harm-", dir="/tmp")
         os.rmdir(wt)
         assert sh("git -C /repo worktree add -q --detach %s HEAD" % wt).returncode == 0
